@@ -254,6 +254,7 @@ def gen_words_sharded(ex, n, decl, shard_forms, allow_dd=True):
         elif f == "word":
             w = Word("word", val=ex.fresh("w", "int"))
             ex.assume(w.val >= 0)
+            ex.assume(w.val != ex.intern("--"))  # that would be the separator
         elif f in ("short", "short=", "shortv"):
             c = ex.fresh("c", 32)
             ex.assume(z3.And(c != ord("-"), c != ord("="), z3.ULT(c, 0x110000), z3.UGT(c, 0x20),
@@ -273,6 +274,8 @@ def gen_words_sharded(ex, n, decl, shard_forms, allow_dd=True):
         elif f in ("long", "long="):
             w = Word(f, name=ex.fresh("l", "int"))
             ex.assume(w.name >= 0)
+            if f == "long":
+                ex.assume(w.name != ex.intern(""))  # `--` alone is the separator, not a long name
             if f == "long=":
                 w.val = ex.fresh("v", "int")
                 ex.assume(w.val >= 0)
